@@ -99,3 +99,279 @@ def simple_select(cls="inherit", keys=PLAIN_KEYS, with_alias=None):
         return {"cls": cls, "sources": {}, "steps": steps}
 
     return build()
+
+
+# ------------------------------------------------------------------------------------------------------------------
+# structured statement generator (shared by C04, C07, C08, C10, C11, C13)
+
+
+class Markers:
+    """issues unique marker values so an oracle can find 'that value' again"""
+
+    def __init__(self):
+        self.n = 0
+        self.issued = []  # (node, python-ish description)
+
+    def next(self):
+        self.n += 1
+        return self.n
+
+
+VALUE_KINDS = ("int", "str", "float", "decimal", "bool", "date", "datetime", "time", "uuid", "dict", "enum", "star", "vwnp", "negint", "list")
+
+
+def marker_value(draw, mk, kinds=VALUE_KINDS):
+    """-> value node carrying a unique marker (where the kind allows one)"""
+    k = draw(st.sampled_from(kinds))
+    n = mk.next()
+    if k == "int":
+        node = ["raw", 900000 + n]
+    elif k == "negint":
+        node = ["raw", -(900000 + n)]
+    elif k == "str":
+        node = ["raw", "v%d" % n]
+    elif k == "float":
+        node = ["raw", 900000 + n + 0.5]
+    elif k == "decimal":
+        node = ["pyv", "decimal", "%d.25" % (900000 + n)]
+    elif k == "bool":
+        node = ["raw", bool(n % 2)]
+    elif k == "date":
+        node = ["pyv", "date", "2%03d-01-02" % (n % 1000)]
+    elif k == "datetime":
+        node = ["pyv", "datetime", "2%03d-01-02T03:04:05" % (n % 1000)]
+    elif k == "time":
+        node = ["pyv", "time", "03:04:05.%06d" % n]
+    elif k == "uuid":
+        node = ["pyv", "uuid", "00000000-0000-0000-0000-%012d" % n]
+    elif k == "dict":
+        node = ["raw", {"k%d" % n: 900000 + n}]
+    elif k == "list":
+        node = ["raw", [900000 + n, "l%d" % n]]
+    elif k == "enum":
+        node = ["enum", "Order", "asc" if n % 2 else "desc"]
+    elif k == "star":
+        node = ["vw", ["raw", "*"]]
+    elif k == "vwnp":
+        node = ["vwnp", ["raw", "np%d" % n]]
+    else:
+        raise AssertionError(k)
+    mk.issued.append((k, node))
+    return node
+
+
+class StmtGen:
+    """draw-driven builder of one statement program; subclasses / options steer what is generated"""
+
+    def __init__(self, draw, cls, mk=None, value_kinds=("int", "str", "float", "negint"), depth=2, names=None, aliases=True, features=None):
+        self.draw = draw
+        self.cls = cls
+        self.mk = mk or Markers()
+        self.value_kinds = value_kinds
+        self.depth = depth
+        self.aliases = aliases
+        self.features = features  # None = everything
+        self.nalias = 0
+
+    # -- helpers
+    def d(self, s):
+        return self.draw(s)
+
+    def flag(self, name=None, p=0.5):
+        if self.features is not None and name is not None and name not in self.features:
+            return False
+        return self.d(st.integers(0, 99)) < int(p * 100)
+
+    def value(self):
+        return marker_value(self.draw, self.mk, self.value_kinds)
+
+    def alias(self, prefix="al"):
+        self.nalias += 1
+        return "%s%d" % (prefix, self.nalias)
+
+    def col(self, keys):
+        return ["col", self.d(st.sampled_from(keys)), self.d(st.sampled_from(COLS))]
+
+    def term(self, keys, depth=2):
+        c = self.d(st.integers(0, 9))
+        if depth <= 0 or c < 4:
+            return self.col(keys)
+        if c == 4:
+            v = self.value()
+            return ["vw", v] if v[0] in ("raw", "pyv") else v
+        if c == 5:
+            return [self.d(st.sampled_from(("add", "sub", "mul"))), self.term(keys, depth - 1), self.d(st.booleans()) and self.value() or self.term(keys, depth - 1)]
+        if c == 6:
+            return ["fn", self.d(st.sampled_from(["Coalesce", "NullIf"])), [self.term(keys, depth - 1), self.value()]]
+        if c == 7:
+            return ["case", [[self.crit(keys, depth - 1), self.value()]], self.d(st.booleans()) and self.value() or None]
+        if c == 8:
+            return ["fn", self.d(st.sampled_from(["Upper", "Abs", "Length"])), [self.term(keys, depth - 1)]]
+        return ["cfn", "FN1", [self.term(keys, depth - 1), self.value()]]
+
+    def agg(self, keys):
+        return ["fn", self.d(st.sampled_from(["Sum", "Max", "Min", "Count", "Avg"])), [self.col(keys)]]
+
+    def crit(self, keys, depth=2):
+        c = self.d(st.integers(0, 11))
+        if depth > 0 and c >= 9:
+            return [self.d(st.sampled_from(("and", "or"))), self.crit(keys, depth - 1), self.crit(keys, depth - 1)]
+        if depth > 0 and c == 8:
+            return ["not", self.crit(keys, depth - 1)]
+        left = self.col(keys)
+        if c in (0, 1, 2):
+            return [self.d(st.sampled_from(("eq", "ne", "gt", "ge", "lt", "le"))), left, self.value()]
+        if c == 3:
+            return ["eq", left, self.col(keys)]
+        if c == 4:
+            return [self.d(st.sampled_from(("in", "notin"))), left, [self.value() for _ in range(self.d(st.integers(1, 3)))]]
+        if c == 5:
+            return ["between", left, self.value(), self.value()]
+        if c == 6:
+            return [self.d(st.sampled_from(("like", "not_like"))), left, ["raw", "p%d%%" % self.mk.next()]]
+        if c == 7 and self.depth > 0 and self.flag("subquery"):
+            sub = self.subselect()
+            return ["in", left, ["q", sub]]
+        return [self.d(st.sampled_from(("isnull", "notnull"))), left]
+
+    def subselect(self, ncols=1, alias_terms=False):
+        g = StmtGen(self.draw, "inherit", self.mk, self.value_kinds, self.depth - 1, aliases=self.aliases, features=self.features)
+        return g.select(ncols=ncols, alias_terms=alias_terms)
+
+    def src_key(self):
+        return self.d(st.sampled_from(ALL_KEYS[:6]))
+
+    # -- statements
+    def select(self, ncols=None, alias_terms=True):
+        steps = []
+        keys = []
+        if self.flag("cte", 0.15) and self.depth > 0:
+            steps.append(["with_", [["q", self.subselect()], ["py", "cte%d" % self.mk.next()]]])
+        k0 = self.src_key()
+        use_sub_from = self.depth > 0 and self.flag("subquery", 0.15)
+        if use_sub_from:
+            steps.append(["from_", [["q", self.subselect(ncols=2)]]])
+            keys = []
+        else:
+            steps.append(["from_", [["src", k0]]])
+            keys = [k0]
+        njoin = self.d(st.integers(0, 2)) if self.flag("join", 0.5) and keys else 0
+        for _ in range(njoin):
+            kj = self.d(st.sampled_from([k for k in ALL_KEYS[:6] if SOURCES[k][1] not in [SOURCES[x][1] for x in keys] or SOURCES[k][3]] or ["V"]))
+            if kj in keys:
+                continue
+            how = self.d(st.sampled_from(["inner", "left", "right", "outer", "cross"]))
+            on = ["eq", ["col", keys[0], self.d(st.sampled_from(COLS))], ["col", kj, self.d(st.sampled_from(COLS))]]
+            if self.d(st.booleans()):
+                on = ["and", on, [self.d(st.sampled_from(("gt", "lt"))), ["col", kj, "b"], self.value()]]
+            steps.append(["join", [["src", kj], ["enum", "JoinType", how]], {}, ["on", [on]] if how != "cross" else ["cross", []]])
+            keys.append(kj)
+        tk = tuple(keys) if keys else ()
+        n = ncols if ncols is not None else self.d(st.integers(1, 3))
+        sel = []
+        grouped = self.flag("groupby", 0.3) and bool(tk)
+        for i in range(n):
+            if not tk:
+                v = self.value()
+                t = (["vw", v] if v[0] in ("raw", "pyv") else v) if i else ["star", None]
+                if not i:
+                    sel.append(t)
+                    continue
+            elif grouped and i > 0:
+                t = self.agg(tk)
+            else:
+                t = self.term(tk, 2) if self.d(st.booleans()) else self.col(tk)
+            if alias_terms and self.aliases and self.d(st.booleans()):
+                t = ["as", t, self.alias()]
+            sel.append(t)
+        steps.append(["select", sel])
+        if self.flag("distinct", 0.15):
+            steps.append(["distinct", []])
+        if tk and self.flag("where", 0.7):
+            steps.append(["where", [self.crit(tk, 2)]])
+        if grouped:
+            first = sel[0]
+            gb = first[1] if first[0] == "as" else first
+            steps.append(["groupby", [first if first[0] == "as" and self.d(st.booleans()) else gb]])
+            if self.flag("having", 0.5):
+                steps.append(["having", [[self.d(st.sampled_from(("gt", "lt"))), self.agg(tk), self.value()]]])
+        if tk and self.flag("orderby", 0.4):
+            ob = self.d(st.sampled_from(sel)) if self.d(st.booleans()) else self.col(tk)
+            if ob[0] in ("star",):
+                ob = self.col(tk)
+            steps.append(["orderby", [ob], self.d(st.sampled_from([{}, {"order": ["enum", "Order", "desc"]}]))])
+        if self.flag("limit", 0.3):
+            steps.append(["limit", [["raw", 900000 + self.mk.next()]]])
+            self.mk.issued.append(("int", steps[-1][1][0]))
+        if self.flag("offset", 0.2):
+            steps.append(["offset", [["raw", 900000 + self.mk.next()]]])
+            self.mk.issued.append(("int", steps[-1][1][0]))
+        if self.depth > 0 and self.flag("setop", 0.12):
+            other = StmtGen(self.draw, "inherit", self.mk, self.value_kinds, 0, aliases=False, features=self.features).select(ncols=n, alias_terms=False)
+            steps.append([self.d(st.sampled_from(["union", "union_all", "intersect", "except_of"])), [["q", other]]])
+        return {"cls": self.cls, "sources": {}, "steps": steps}
+
+    def insert(self):
+        k = self.d(st.sampled_from(PLAIN_KEYS))
+        steps = [["into", [["src", k]]]]
+        ncol = self.d(st.integers(1, 3))
+        if self.d(st.booleans()):
+            steps.append(["columns", [["py", c] for c in COLS[:ncol]]])
+        if self.depth > 0 and self.flag("insert_select", 0.2):
+            sub = StmtGen(self.draw, "inherit", self.mk, self.value_kinds, 0, aliases=self.aliases, features=self.features).select(ncols=ncol)
+            steps += [s for s in sub["steps"] if s[0] not in ("with_", "union", "union_all", "intersect", "except_of")]
+        else:
+            nrows = self.d(st.integers(1, 2))
+            if nrows == 1:
+                steps.append([self.d(st.sampled_from(["insert", "insert", "replace"])), [self.value() for _ in range(ncol)]])
+            else:
+                steps.append(["insert", [["pytuple", [self.value() for _ in range(ncol)]] for _ in range(nrows)]])
+            if self.flag("upsert", 0.4):
+                steps.append(["on_conflict", [["py", "id"]]])
+                if self.d(st.booleans()):
+                    steps.append(["do_nothing", []])
+                else:
+                    steps.append(["do_update", [["py", "a"], self.value()]])
+                    if self.d(st.booleans()):
+                        steps.append(["do_update", [["py", "b"]]])
+                    if self.d(st.booleans()):
+                        steps.append(["where", [["eq", ["col", k, "c"], self.value()]]])
+        if self.cls == "postgresql" and self.flag("returning", 0.3):
+            steps.append(["returning", [["py", "id"]]])
+        return {"cls": self.cls, "sources": {}, "steps": steps}
+
+    def update(self):
+        k = self.d(st.sampled_from(PLAIN_KEYS))
+        steps = [["update", [["src", k]]]]
+        for _ in range(self.d(st.integers(1, 2))):
+            steps.append(["set", [self.d(st.sampled_from([["py", "a"], ["py", "b"], ["col", k, "c"]])), self.d(st.booleans()) and self.value() or ["add", ["col", k, "b"], self.value()]]])
+        if self.flag("where", 0.7):
+            steps.append(["where", [self.crit((k,), 1)]])
+        if self.cls == "mysql" and self.flag("limit", 0.3):
+            steps.append(["orderby", [["col", k, "id"]]])
+            steps.append(["limit", [["raw", 900000 + self.mk.next()]]])
+            self.mk.issued.append(("int", steps[-1][1][0]))
+        if self.cls == "postgresql" and self.flag("returning", 0.3):
+            steps.append(["returning", [["py", "id"]]])
+        return {"cls": self.cls, "sources": {}, "steps": steps}
+
+    def delete(self):
+        k = self.d(st.sampled_from(PLAIN_KEYS))
+        steps = [["from_", [["src", k]]], ["delete", []]]
+        if self.flag("where", 0.8):
+            steps.append(["where", [self.crit((k,), 1)]])
+        if self.cls == "postgresql" and self.flag("returning", 0.3):
+            steps.append(["returning", [["py", "id"]]])
+        return {"cls": self.cls, "sources": {}, "steps": steps}
+
+
+@st.composite
+def statement(draw, cls=None, kinds=("select", "select", "select", "insert", "update", "delete"), value_kinds=("int", "str", "float", "negint"), depth=2, features=None, aliases=True):
+    c = cls or draw(st.sampled_from(("generic", "sqlite", "mysql", "postgresql", "mssql", "oracle")))
+    g = StmtGen(draw, c, None, value_kinds, depth, aliases=aliases, features=features)
+    kind = draw(st.sampled_from(kinds))
+    p = getattr(g, kind)()
+    p["sources"] = dict(SOURCES)
+    p["kind"] = kind
+    p["markers"] = [[k, n] for k, n in g.mk.issued]
+    return p
